@@ -180,8 +180,8 @@ pub struct C04Case {
     /// chain is the upgrade commit)
     pub legacy_base: bool,
     /// staged case (two readers, six commits): reader 1 begins after commit 2; reader 0 (begun on
-    /// the base state) looks again and ends after commit 3; the writer makes commits 4 to 6 only
-    /// after that; reader 1 looks again after the last commit.  The waits are blocking (no preemption is
+    /// the base state) looks again and ends after commit 4 (so two writers begin while both readers
+    /// are open); the writer makes commits 5 and 6 only after that; reader 1 looks again after the last commit.  The waits are blocking (no preemption is
     /// spent on them); the preemption budget explores the rest.
     pub readers_wait: bool,
     pub chain: Vec<usize>,
@@ -283,7 +283,7 @@ pub fn c04_run(case: &C04Case, base: &Base, path: &str, prefix: &[u8], policy: R
         let staged = case.readers_wait && nwriters == 1;
         bodies.push(Box::new(move |_ctx: &Ctx| {
             for (ci, ops) in chain_ops.into_iter().enumerate() {
-                if staged && ci == 3 {
+                if staged && ci == 4 {
                     _ctx.await_flag(100);
                 }
                 let tx = match db.tx(true) {
@@ -360,7 +360,7 @@ pub fn c04_run(case: &C04Case, base: &Base, path: &str, prefix: &[u8], policy: R
             for i in 0..dumps {
                 if i > 0 {
                     if readers_wait {
-                        ctx.await_flag(if ri == 0 { 3 } else { total_commits as usize });
+                        ctx.await_flag(if ri == 0 { 4 } else { total_commits as usize });
                     } else {
                         ctx.yield_now("between-dumps");
                     }
